@@ -64,7 +64,7 @@ open_("D18f", "C16", "an expression nested a few thousand levels deep (NOT NOT .
 open_("D35", "C16", "INSERT INTO t SELECT * FROM t never returns (the scan sees the rows it inserts)", "O-live:hang", "insert_select_from_same_table", "findings/D35-insert-select-from-same-table-never-returns.json")
 
 # ---- open findings: plans and indexes (C06) ----
-open_("J1", "C06", "an equi-join loses matching rows when either input holds a NULL in the join column (the wrapped key, which forces a nested-loop join, returns them)", "O-plan", "join_on_column_holding_null", "findings/J1-equi-join-with-null-join-key-loses-matches.json")
+fixed("J1", "C06", "0093459", "an equi-join lost matching rows when the left input held a NULL in the join column (merge join compared a NULL key as greater than every right key and ran the right input dry)", "O-plan", "findings/J1-equi-join-with-null-join-key-loses-matches.json")
 open_("U2b", "C06", "DELETE and re-INSERT of a UNIQUE key inside an open transaction hides the committed row from every other transaction's index lookups until the commit", "O-plan", "unique_key_reuse_while_session_open", "findings/U2b-delete-and-reinsert-of-key-in-open-txn-hides-committed-row-from-index-lookups.json")
 for prop in ("C06",):
     open_("D7", prop, "any UPDATE of a table that has a PRIMARY KEY / UNIQUE index fails with 'datatype mismatch ... BigUInt'", "O-res", "update_on_table_with_unique_index", "findings/D7-update-on-table-with-unique-index.json")
